@@ -4,6 +4,7 @@
 -/
 import PulserModel.Sequence
 import Driver.Wire
+import Driver.SeqRender
 open Pulser Wire
 
 namespace DSeq
@@ -213,6 +214,10 @@ def step (m : M) (t : List String) : M × String :=
   | ["snap"] =>
     match m.st with
     | some s => (m, showState s)
+    | none => (m, "bad nostate")
+  | "render" :: rest =>
+    match m.st with
+    | some s => (m, DRender.renderCmd s rest)
     | none => (m, "bad nostate")
   | _ => (m, "bad cmd")
 
